@@ -74,6 +74,11 @@ def run_all(chk, fsets, tier):
         chk.rule("B1.numeric", floor=150 if i == 0 else 0,
                  doc="E3 over the six io::Read/io::Write bodies x word sizes: chunk length vs [u8; 8] conversion (try_into().unwrap()), remainder width <= 64 bits, copy_from_slice length equalities, range bounds, read_bits/write_bits widths, invariants")
         rn.run_specs(chk, F, specs, "B1.numeric", fs)
+    # the byte views go through the words of the backend: every word fetched / delivered is converted for the stream's endianness
+    import deps
+    F0 = facts.load(fsets[0])
+    deps.reader_structure(chk, F0, ("R1.endianness",), "B5.words", "every backend word the reader fetches (also on the byte path) is converted with to_be/to_le of the stream (C02)")
+    deps.writer_structure(chk, F0, ("W2.endianness",), "B5.words", "every word the writer delivers is converted with to_be/to_le of the stream (C01)")
     chk.trust("rustc MIR construction and the mirx exporter")
     chk.trust("contract table: chunks_exact / remainder / try_into::<[u8;N]> / copy_from_slice / range indexing as documented by std")
     chk.trust("exact rational simplex sa/lp.py")
